@@ -179,7 +179,12 @@ class _Beam(_IModel):
         Iyz = section.groupElem.Integrate_e(lambda x, y, z: x * y).sum()
         assert np.abs(Iyz) <= 1e-9, "The section must have at least 1 symetry axis."
         self.Need_Update()
+        isNewSection = hasattr(self, "_Beam__section")
         self.__section: "Mesh" = section
+        if isNewSection:
+            # the shear correction factors belong to the section
+            self._ky = self._Get_shear_correction_factor("y")
+            self._kz = self._Get_shear_correction_factor("z")
 
     @property
     def xAxis(self) -> _types.FloatArray:
